@@ -5,7 +5,7 @@ import re
 from ..common import Report
 from ..corpus import load
 from ..deleg import all_calls, walk, real_adjusts, callee_of
-from ..wrules import (FnModView, TraitView, ImplBlockView, trait_methods, impl_methods, in_macro, last_seg,
+from ..wrules import (is_mock_impl, FnModView, TraitView, ImplBlockView, trait_methods, impl_methods, in_macro, last_seg,
                       entrait_depth)
 
 HEAPY = re.compile(r"\bdyn\b|alloc::boxed::Box|alloc::rc::Rc|alloc::sync::Arc|alloc::vec::Vec|alloc::string::String")
@@ -91,7 +91,7 @@ def run(tier):
                             not o["sig"]["output_s"].startswith("core::pin::Pin"):
                         rep.add("R-ZERO", "%s :: %s boxed-future" % (key0, name), "trait method returns a pinned box", where=exp.label())
                 for imp in v.impls:
-                    if in_macro(imp, ("unimock", "automock")):
+                    if is_mock_impl(imp):
                         continue
                     for name, im in impl_methods(crate, imp).items():
                         o = by_name.get(name)
